@@ -215,6 +215,8 @@ func c06Run(c *Ctx) {
 	}
 	Flags{}.Apply()
 	c06GzipMembers(c, alpha)
+	badLineHistories(c, "C06")
+	twinHistories(c, "C06", append(twinFlagSets, Flags{Z: "^(a|step)$"}, Flags{Y: true}))
 	// every line length up to past the reader's limit, five line shapes, on the real stream code
 	streamLenSweep(c, "C06", []string{"secret-pad", "keep-blanks", "keep-mixed", "keep-multibyte", "fixed-point", "array-pad"}, Flags{})
 	switch c.Shard {
@@ -505,7 +507,7 @@ func trunc(s string, n int) string {
 func init() {
 	register(&PropDef{
 		ID: "C06", Level: "model_checking",
-		Rule:        "all sequences of length <=4 (thorough 5) over the 9-symbol line alphabet {command line A, command line B, other-component line, empty, whitespace-only, non-JSON text, legacy text-format line, truncated object, object+garbage} x {LF, CRLF} x {final newline, none} x 3 in-process channels (reader, plain file, gzip file) x 4 progress-bar modes x 2 flag sets; all sequences of length <=2 (thorough 3) through the real CLI x 3 input x 2 output channels x EOL x final newline, each twice. States = sequence prefixes, transitions = appended lines; oracle: out(seq) = concatenation of the one-line outputs, one-line outputs checked per class. distinct = (flag set, sequence)" + streamLenRule + "; gzip archives of a 4-line text split into 2 members at EVERY byte offset and into 3 members at pairs of offsets (stride 29, thorough 3), both line-end conventions",
+		Rule:        "all sequences of length <=4 (thorough 5) over the 9-symbol line alphabet {command line A, command line B, other-component line, empty, whitespace-only, non-JSON text, legacy text-format line, truncated object, object+garbage} x {LF, CRLF} x {final newline, none} x 3 in-process channels (reader, plain file, gzip file) x 4 progress-bar modes x 2 flag sets; all sequences of length <=2 (thorough 3) through the real CLI x 3 input x 2 output channels x EOL x final newline, each twice. States = sequence prefixes, transitions = appended lines; oracle: out(seq) = concatenation of the one-line outputs, one-line outputs checked per class. distinct = (flag set, sequence)" + streamLenRule + "; gzip archives of a 4-line text split into 2 members at EVERY byte offset and into 3 members at pairs of offsets (stride 29, thorough 3), both line-end conventions" + twinRule + badHistRule,
 		Assumptions: []string{"truncated objects and objects followed by garbage are borderline members of 'JSON object': their one-line output is taken as it is", "a line that panics is C07's concern and is left out of the alphabet (noted)"},
 		Run:         c06Run,
 	})
